@@ -298,7 +298,9 @@ class Check(PropertyCheck):
                   "NEVER_CHECK_SUBJECT accepts nothing the specification rejects), hostflags_are_both (flag values regenerated from the code), and "
                   "eff_sni_precedence (preset server.sni, else non-empty client SNI, else address), plan_shape (IP -> set1_ip and no SNI extension; host -> SNI == verified "
                   "name; no reference only with ssl_insecure and an empty name; empty name with verification on -> the hook refuses), "
-                  "ossl_literal_unless_leading_star (patterns not starting with `*` are compared literally), and "
+                  "ossl_literal_unless_leading_star (patterns not starting with `*` are compared literally), verified_identity_transport_independent (the TCP/TLS path and "
+                  "the QUIC path — quic_start_server + QuicLayer.start_tls, now in the model as startServerQuic — verify the same reference identifier with the "
+                  "same verify mode, and the QUIC plan always carries one), insecure_off_requires_verify_any_transport, and "
                   "fail_sends_no_appdata (tunnel model of C14: after a handshake error the child is told the error, never success, and no plaintext "
                   "was handed to the TLS engine). Model tied to the real ServerTLSLayer + TlsConfig by real in-memory handshakes over the certificate matrix "
                   "x SNI/address forms x trust configuration; chain validity from cryptography.x509.verification.")
@@ -318,16 +320,20 @@ class Check(PropertyCheck):
             "non-DNS SANs) x validity {ok, expired, not yet valid} x issuer {trusted root, other root, self-signed, intermediate with/without chain} x target "
             "(client SNI / preset server SNI / address; host, IPv4, IPv6, IDN, case, empty) x trust {CA file, hashed CA dir, ssl_insecure, certifi default} x client_certs {unset, key+leaf, key+leaf+CA bundle, per-host directory} with servers "
             "chaining to the client-cert CA / the trusted CA / neither; seq: two consecutive connections to one TLS<=1.2 server (shared session cache) at one address with "
-            "different SNI / trust settings; "
+            "different SNI / trust settings; qhs: the QUIC upstream path (real ServerQuicLayer + quic_start_server against an in-memory aioquic server) over reference "
+            "identity (DNS / IPv4 / IPv6) x SANs x chain x trust; "
             "nm: pattern/reference pairs for the name rule. distinct = distinct case; non-trivial = a TLS connection object was built.")
-    budget = {"quick": 2500, "thorough": 20000}
+    budget = {"quick": 2800, "thorough": 20000}
     time_budget = {"quick": 35, "thorough": 500}
     fingerprints = ["mitmproxy.addons.tlsconfig:TlsConfig.tls_start_server", "mitmproxy.net.tls:create_proxy_server_context",
                     "mitmproxy.proxy.layers.tls:TLSLayer.receive_handshake_data", "mitmproxy.proxy.layers.tls:TLSLayer.on_handshake_error",
                     "mitmproxy.proxy.layers.tls:ServerTLSLayer.on_handshake_error", "mitmproxy.proxy.layers.tls:TLSLayer.start_tls",
-                    "mitmproxy.proxy.tunnel:TunnelLayer._handle_event", "mitmproxy.proxy.tunnel:TunnelLayer._handshake_finished"]
+                    "mitmproxy.proxy.tunnel:TunnelLayer._handle_event", "mitmproxy.proxy.tunnel:TunnelLayer._handshake_finished",
+                    "mitmproxy.addons.tlsconfig:TlsConfig.quic_start_server", "mitmproxy.proxy.layers.quic._stream_layers:QuicLayer.start_tls",
+                    "mitmproxy.proxy.layers.quic._stream_layers:tls_settings_to_configuration"]
     trusted_base = ["OpenSSL (via pyOpenSSL): chain building, signature/time checks, X509_check_host/X509_check_ip semantics under the configured flags",
-                    "cryptography.x509.verification as the independent chain verifier; Python ipaddress + idna codec"]
+                    "cryptography.x509.verification as the independent chain verifier; Python ipaddress + idna codec",
+                    "aioquic + service_identity: certificate verification on the QUIC path (the model reuses the OpenSSL transcription for its name rule; validated on the qhs matrix)"]
     parallel = False
 
     # ---- translator ---------------------------------------------------------------------------------------------
@@ -388,6 +394,19 @@ class Check(PropertyCheck):
                 for trust in ("file", "dir", "default-store", "insecure"):
                     for t in (T0, TARGETS[2]):
                         c = hs("matching" if t is T0 else "ip-san", t, trust, "ok", issuer); c["client_certs"] = cc; yield c
+        # the QUIC / HTTP-3 upstream path over the same space: reference identity (DNS name / IPv4 / IPv6, as SNI or as address) x SANs
+        # (matching / other name / other IP / wildcard / none / CN only) x chain x trust
+        QT = [TARGETS[0], TARGETS[1], TARGETS[2], TARGETS[3], TARGETS[5], TARGETS[15], (None, None, "192.0.2.99"), (None, None, "2001:db8::99")]
+        for names in ("matching", "mismatched", "wildcard", "ip-san", "ip6-san", "none") + (("ip-as-dns", "many", "upper") if tier == "thorough" else ()):
+            for t in QT:
+                for trust in ("file", "insecure"):
+                    c = hs(names, t, trust); c["op"] = "qhs"; yield c
+        for issuer, validity in (("rootB", "ok"), ("self", "ok"), ("rootA", "expired"), ("rootA", "future"), ("interA", "ok"), ("interA-nochain", "ok")):
+            for trust in (("file", "dir", "default-store", "insecure") if tier == "thorough" else ("file", "dir")):
+                for t in (TARGETS[0], TARGETS[2]):
+                    c = hs("matching" if t is TARGETS[0] else "ip-san", t, trust, validity, issuer); c["op"] = "qhs"; yield c
+        for t in (TARGETS[0], TARGETS[2]):
+            c = hs("none", t, "file", cn=HOST if t is TARGETS[0] else "192.0.2.1"); c["op"] = "qhs"; yield c
         # two consecutive connections to one server at one address: other SNI / other trust settings on the second
         def seq(names, first, second):
             mk = lambda t: {"client_sni": t[0], "server_sni": None, "trust": t[1]}
@@ -421,6 +440,11 @@ class Check(PropertyCheck):
                 c["client_certs"] = rng.pick([None, "leaf", "bundle", "dir"])
                 yield c
             elif x < 0.5:
+                c = hs(rng.pick(["matching", "mismatched", "wildcard", "ip-san", "ip6-san", "none", "many", "upper"]),
+                       rng.pick([TARGETS[0], TARGETS[1], TARGETS[2], TARGETS[3], TARGETS[5], TARGETS[15], (None, None, "192.0.2.99")]), rng.pick(TRUST),
+                       rng.pick(["ok", "ok", "expired"]), rng.pick(["rootA", "rootA", "rootB", "interA"]))
+                c["op"] = "qhs"; yield c
+            elif x < 0.52:
                 yield hs(rng.pick(list(NAMESETS)), rng.pick(TARGETS), rng.pick(TRUST), rng.pick(["ok", "ok", "ok", "expired", "future"]),
                          rng.pick(["rootA", "rootA", "rootA", "rootB", "self", "interA", "interA-nochain"]),
                          cn=rng.pick([None, None, HOST, "192.0.2.1", "*.example.com"]))
@@ -441,7 +465,111 @@ class Check(PropertyCheck):
             sctx = self.server_ctx(case["conns"][0]["cert"], tls12=True)
             addr = "10.77.%d.%d" % divmod(int(hashlib.sha256(json.dumps(case, sort_keys=True).encode()).hexdigest()[:4], 16), 256)
             return {"conns": [self._hs(dict(c, cert=case["conns"][0]["cert"], address=addr), sctx) for c in case["conns"]]}
+        if case["op"] == "qhs": return self._qhs(case)
         return self._hs(case, None)
+
+    def _qhs(self, case):
+        """the QUIC / HTTP-3 upstream path: real ServerQuicLayer + TlsConfig.quic_start_server against an in-memory aioquic server"""
+        from collections import deque
+        from aioquic.buffer import Buffer as QuicBuffer
+        from aioquic.quic import events as quic_events
+        from aioquic.quic.configuration import QuicConfiguration
+        from aioquic.quic.connection import QuicConnection
+        from aioquic.quic.packet import pull_quic_header
+        from c14_tls import tls_addon
+        from mitmproxy import connection
+        from mitmproxy.proxy import commands, context, events, layer
+        from mitmproxy.proxy.layers import quic
+        from mitmproxy.proxy.layers.quic import SendQuicStreamData
+        P = pki()
+        ta, tctx = tls_addon("c15-conf")
+        trust = case["trust"]
+        tctx.options.ssl_insecure = trust.startswith("insecure")
+        tctx.options.ssl_verify_upstream_trusted_ca = P["cafile"] if trust in ("file", "insecure") else None
+        tctx.options.ssl_verify_upstream_trusted_confdir = P["cadir"] if trust == "dir" else None
+        tctx.options.client_certs = None
+        cert, extra = leaf(case["cert"])
+        key = hashlib.sha256(json.dumps(case["cert"], sort_keys=True).encode()).hexdigest()[:24]
+        certfile, keyfile = os.path.join(CERTS, f"q-{key}.crt"), os.path.join(CERTS, "q-leaf.key")
+        for path, data in ((certfile, b"".join(c.public_bytes(serialization.Encoding.PEM) for c in [cert] + extra)), (keyfile, _pem_key(P["keys"]["leaf"]))):
+            if not os.path.exists(path):
+                open(path + ".tmp%d" % os.getpid(), "wb").write(data); os.replace(path + ".tmp%d" % os.getpid(), path)
+        now = [0.0]
+        ctx = context.Context(connection.Client(peername=("198.51.100.1", 51234), sockname=("198.51.100.2", 443), timestamp_start=1.0,
+                                                transport_protocol="udp"), tctx.options)
+        ctx.client.sni = case["client_sni"]
+        ctx.server.address = (case["address"], 443)
+        ctx.server.sni = case["server_sni"]
+        ctx.server.transport_protocol = "udp"
+
+        class App(layer.Layer):
+            done, err = False, "n/a"
+            def _handle_event(self, event):
+                if isinstance(event, events.Start):
+                    err = yield commands.OpenConnection(self.context.server)
+                    self.done, self.err = True, err
+                    if not err:
+                        yield SendQuicStreamData(self.context.server, 0, SECRET, True)
+                else:
+                    yield from ()
+        top = quic.ServerQuicLayer(ctx, time=lambda: now[0])
+        app = App(ctx); top.child_layer = app
+        cfg = QuicConfiguration(is_client=False, alpn_protocols=["h3"], max_datagram_frame_size=65536)
+        cfg.load_cert_chain(certfile=certfile, keyfile=keyfile)
+        srv, hooks, data_at_server, wakeups, queue, closed = [], [], bytearray(), [], deque(), [False]
+
+        def drain():
+            while ev := srv[0].next_event():
+                if isinstance(ev, quic_events.StreamDataReceived): data_at_server.extend(ev.data)
+            for data, _ in srv[0].datagrams_to_send(now[0]):
+                if ctx.server.state is not connection.ConnectionState.CLOSED: queue.append(events.DataReceived(ctx.server, data))
+
+        def handle(cmd):
+            if isinstance(cmd, commands.StartHook):
+                hooks.append(cmd.name)
+                fn = getattr(ta, cmd.name, None)
+                if fn is not None:
+                    try: fn(*cmd.args())
+                    except Exception as e: hooks.append("raised:" + type(e).__name__)
+                queue.append(events.HookCompleted(cmd, None))
+            elif isinstance(cmd, commands.OpenConnection):
+                cmd.connection.state = connection.ConnectionState.OPEN
+                cmd.connection.peername = (case["address"], 443); cmd.connection.timestamp_start = 1.0
+                queue.append(events.OpenConnectionCompleted(cmd, None))
+            elif isinstance(cmd, commands.SendData):
+                now[0] += 0.01
+                if not srv:
+                    hdr = pull_quic_header(QuicBuffer(data=cmd.data), host_cid_length=8)
+                    srv.append(QuicConnection(configuration=cfg, original_destination_connection_id=hdr.destination_cid))
+                srv[0].receive_datagram(cmd.data, ("203.0.113.7", 40000), now[0]); drain()
+            elif isinstance(cmd, commands.RequestWakeup):
+                wakeups.append((now[0] + cmd.delay, cmd))
+            elif isinstance(cmd, commands.CloseConnection):
+                cmd.connection.state = connection.ConnectionState.CLOSED; closed[0] = True
+
+        def pump():
+            while queue:
+                for cmd in top.handle_event(queue.popleft()): handle(cmd)
+        queue.append(events.Start()); pump()
+        for _ in range(400):
+            if app.done and (app.err or data_at_server): break
+            if wakeups:
+                wakeups.sort(key=lambda x: x[0]); t, cmd = wakeups.pop(0)
+                now[0] = max(now[0], t) + 0.01; queue.append(events.Wakeup(cmd))
+            else:
+                now[0] += 0.5
+            if srv:
+                timer = srv[0].get_timer()
+                if timer is not None and timer <= now[0]: srv[0].handle_timer(now[0])
+                drain()
+            pump()
+        raised = [h for h in hooks if h.startswith("raised:")]
+        est, failed = "tls_established_server" in hooks, "tls_failed_server" in hooks
+        outcome = "hookRaised" if (raised or "quic_start_server" not in hooks) else "established" if est else "failed"
+        return {"outcome": outcome, "hooks": [("tls_start_server" if h == "quic_start_server" else h) for h in hooks if h.startswith(("tls_", "quic_", "raised"))],
+                "open_result": None if app.err is None else "n/a" if app.err == "n/a" else "error", "conn_error": bool(ctx.server.error), "closed": closed[0],
+                "peer_plain": hx(bytes(data_at_server)), "peer_done": est, "sni_ext": None, "tls_established": bool(ctx.server.tls_established),
+                "chain_ok": chain_ok(case["cert"]), "established_and_failed": est and failed}
 
     def server_ctx(self, cert_spec, tls12=False, sni_seen=None):
         P = pki()
@@ -589,6 +717,14 @@ class Check(PropertyCheck):
         if case["op"] == "seq":
             cert = case["conns"][0]["cert"]
             return [self.model_lines(dict(c, op="hs", cert=cert, address="10.77.0.1"))[0] for c in case["conns"]]
+        if case["op"] == "qhs":
+            # the QUIC start path of the model (startServerQuic): no idna / set1_host step, plain classification of the name
+            o = lambda v: "n" if v is None else hx(v.encode())
+            eff = eff_sni(case)
+            chain = int(chain_ok(case["cert"]) and case["trust"] in ("file", "dir", "insecure"))
+            sans = ",".join(token(s) for s in case["cert"]["sans"]) or "nil"
+            return [f"qhs {int(case['trust'].startswith('insecure'))} {o(case['server_sni'])} {o(case['client_sni'])} {hx(case['address'].encode())} "
+                    f"{(classify(eff) if eff else None) or 'x'} {chain} {sans}"]
         o = lambda v: "n" if v is None else hx(v.encode())
         eff = eff_sni(case)
         cls = classify_server_name(eff) if eff else "x"
@@ -604,6 +740,7 @@ class Check(PropertyCheck):
         if case["op"] == "nm":
             return r.split(" ")[0]                       # spec=0/1
         f = r.split(" ")
+        if case["op"] == "qhs": return {"outcome": f[0]}
         ext = next((x[4:] for x in f if x.startswith("ext=")), None)
         return {"outcome": f[0], "sni_ext": None if f[0] == "hookRaised" else ext}
 
@@ -612,6 +749,7 @@ class Check(PropertyCheck):
             return [self.impl_view(dict(c, op="hs"), o) for c, o in zip(case["conns"], obs["conns"])]
         if case["op"] == "nm": return "spec=%d" % int(obs["py"])
         if "exc" in obs: return obs
+        if case["op"] == "qhs": return {"outcome": obs["outcome"]}
         ext = obs["sni_ext"]
         return {"outcome": obs["outcome"], "sni_ext": None if obs["outcome"] == "hookRaised" else ("none" if ext is None else ext)}
 
@@ -626,6 +764,8 @@ class Check(PropertyCheck):
             return ["seq:" + ">".join(o.get("outcome", "exc") for o in obs["conns"])]
         if case["op"] == "nm": return ["nm:" + ("match" if obs["py"] else "no-match")]
         if "exc" in obs: return ["exc"]
+        if case["op"] == "qhs":
+            return ["quic:" + obs["outcome"], "quic:names:" + case["names"] + ":" + obs["outcome"], "quic:trust:" + case["trust"]]
         return ["hs:" + obs["outcome"], "trust:" + case["trust"], "client_certs:%s:%s" % (case.get("client_certs"), obs["outcome"]), "names:" + case["names"] + ":" + obs["outcome"],
                 "issuer:" + case["cert"]["issuer"] + "/" + case["cert"]["validity"] + ":" + obs["outcome"]]
 
